@@ -41,7 +41,7 @@ CHECKS = {
  "C12": dict(level="fault_enumeration", technique="exhaustive fault-offset enumeration per generated input: reader failing at every input offset, writer failing at every output offset, short-write patterns, one transient Interrupted at every offset; oracle = verdict, preserved error text, document-prefix / byte-prefix relation to the fault-free run",
    text="For every generated valid stream all reader fault offsets 0..=|input| and all writer fault offsets below the output length are enumerated (sampled only above 2 KiB / 1 KiB), for named and detected sources (UTF-8 and UTF-16/32 YAML), all targets and drawn read schedules; a reader interrupted exactly once at every offset must give the fault-free output or a clean failure (named formats); every writer-fault offset is run with a writer that fails with an error and with one that answers Ok(0), from reader and slice input.",
    note="Faulty readers keep failing once they failed. Complete documents are compared, not byte prefixes, for reader faults.", ref="4 C12"),
- "C13": dict(level="exploration", technique="exhaustive argv enumeration up to a length bound plus random argv (proptest) against a reference model of the command line; real debug/release binaries; stdout pipe, file, pseudo-terminal, /dev/full and closed pipes on stdout/stderr",
+ "C13": dict(level="exploration", technique="exhaustive argv enumeration up to a length bound plus random argv (proptest) against a reference model of the command line; real debug/release binaries; stdout pipe, file, pseudo-terminal, /dev/full and closed pipes on stdout/stderr; program names that are not UTF-8",
    text="Every argument vector up to length 2 (quick) / 3 (thorough) over the quantifier's vocabulary is executed and compared with a reference CLI model written from the manual (exit status, which stream carries what, usage text, offending input named, terminal guard); longer vectors are sampled; every vocabulary vector is also run with unwritable stdout/stderr (status by the model, never a signal).",
    note="Unreadable files cannot be produced as root; 'translating nothing' is observed as empty stdout + exit 2.", ref="4 C13"),
  "C14": dict(level="exploration", technique="property-based testing (proptest) of generated file names / contents / input kinds through the real binaries against reference resolution (-f > extension > detection) and in-process library output",
@@ -50,7 +50,7 @@ CHECKS = {
  "C15": dict(level="fault_enumeration", technique="fault enumeration through the real binaries: one failing input of every failure kind planted at every position of generated input lists (sizes below/around/above the stdout buffer), oracle = stdout starts with the library's translations of the preceding inputs",
    text="Each generated list of inputs gets one planted failure (position and kind drawn so that all occur); exit status and the prefix relation of stdout are checked against the reference CLI model; success runs must be exact. Good inputs are regular files, FIFOs and standard input in all four formats.",
    note="Outputs below the 8 KiB buffer are the discriminating class (required by the health check).", ref="4 C15"),
- "C16": dict(level="fault_enumeration", technique="fault enumeration through the real binaries: consumer closes the stdout pipe after k bytes for drawn k over several pipe capacities (4 KiB and 64 KiB pipes), and stdout on /dev/full; inputs sized from the library's output so the outcome is decided by construction",
+ "C16": dict(level="fault_enumeration", technique="fault enumeration through the real binaries: consumer closes the stdout pipe after k bytes for drawn k over several pipe capacities (4 KiB and 64 KiB pipes), stdout on /dev/full (also with the 8 KiB buffer filling at every position inside a document), a stream socket whose peer is gone, a full non-blocking pipe; inputs sized from the library's output so the outcome is decided by construction",
    text="The harness is the pipe consumer, so it owns the closing point; wait status must be SIGPIPE with empty stderr for every closing point, target, input route and per-input output size (which decides whether write, write_all or flush meets the error); /dev/full must give exit 1 and an error line.",
    note="Linux pipe semantics assumed.", ref="4 C16"),
  "C17": dict(level="exploration", engine="xtv-asan", technique="property-based testing (proptest) of the YAML path inside a nightly AddressSanitizer build of the harness, with contract-keeping, failing and over-reporting readers and early parser drops; per-case leak oracle via a counting global allocator; Miri sample in the thorough tier",
